@@ -13,7 +13,10 @@ def run_scenario(sc, variant, round_tag=""):
     from vlib import bootstrap
     import copy
 
-    env = TurnEnv(copy.deepcopy(sc["cfg"]), copy.deepcopy(sc["world"]), boot_loaded=not sc.get("boot_from_snapshot", False))
+    world = copy.deepcopy(sc["world"])
+    if sc.get("boot_from_snapshot", False):
+        world["gel"] = None  # a state that has not booted yet carries no GEL graph: the loader installs the containers
+    env = TurnEnv(copy.deepcopy(sc["cfg"]), world, boot_loaded=not sc.get("boot_from_snapshot", False))
     with env:
         vc = None
         if variant.get("vclock"):
